@@ -7,5 +7,5 @@ Extraction "dv_model.ml"
   pstep pinit ptrace pget sget sset victims
   refresh_fold
   step run init_router getr advert rib_entries rib_update rib_dead
-  topo_of settled all_pairs distb maxdist table_ok table_okw adv_ok converged convergedw fixedb cost_via offered is_round is_growth alive nb
+  topo_of settled all_pairs distb maxdist table_ok table_okw adv_ok converged convergedw hops_okb fixedb cost_via offered is_round is_growth alive nb
   INF N.add N.mul N.of_nat N.to_nat N.eqb N.ltb N.leb N.div N.modulo N.compare.
